@@ -7,7 +7,10 @@ in-memory pipe with a wire tap; sequential scenarios (payload lengths around blo
 chunk boundaries, partitions into Write calls with Flush, block sizes 1..769 and default, iq and message carriers, both
 directions, injected bad packets at every position, refused open, full receive buffer, the 65536 sequence wrap) and
 scheduler-driven schedules (reader vs serve loop vs writer at read.wait / payload.signal / transport gates) are recorded
-and every trace is validated by TLC against TrIBB.tla with M = 65536."""
+and every trace is validated by TLC against TrIBB.tla with M = 65536.  The accepting side of the open handshake ("Opening ...
+succeeds only when the peer accepted it": Listener.Accept / Expect / Close against the serve loop's open handler) has its own
+specification tla/IBBListen.tla, design check with one deviation per invariant, and scheduler-driven scenarios validated against
+TrIBBListen.tla (ibbcommon.run_listen_part)."""
 import json, threading
 import verif
 import ibbcommon as ic
@@ -90,6 +93,7 @@ def design_checks(ctx, out):
         if "<temporal>" not in r.violated and "Temporal property C06_IBBReadReturns was violated" not in r.out:
             raise verif.Undecided("liveness check is vacuous: the lost wake-up deviation is not detected")
         out.update(states=st, transitions=gen, liveness_states=lv.distinct, deviations=7)
+        out.update(ic.listen_design_checks(ctx, w))
     except Exception as e:      # re-raised by the main thread
         out["error"] = e
 
@@ -99,13 +103,22 @@ def run(ctx):
     mc = {}
     th = threading.Thread(target=design_checks if not ctx.replay else (lambda c, o: None), args=(ctx, mc))
     th.start()
+    jl = None
+    lrej, ltrs, lmeta, lsumm, ltr = {}, {}, {}, None, None
     try:
+        case = json.load(open(ctx.replay))["case"] if ctx.replay else None
+        if case and case["scenario"].get("mode") == "listen":
+            lrej, ltrs, lmeta, lsumm, lr, ltr = ic.run_listen_part(ctx, "listen", case=case)
+            ic.report_listen(ctx, lrej, ltrs, lmeta)
+            ctx.log("replayed listener scenario %s: %d schedule(s), %d rejected" % (case["scenario"]["name"], lsumm["evaluations"], len(lrej)))
+            return
         if ctx.replay:
-            case = json.load(open(ctx.replay))["case"]
             scen = [case["scenario"]]
             files, summ = ic.run_driver(ctx, scen, "replay", shards=1)
             parts = [("replay", files, summ)]
         else:
+            ctx.go_build("ibb")
+            jl = ic._bg(ic.run_listen_part, ctx, "listen", 50 if quick else None)
             seq = ic.seq_scenarios(ctx.tier, ctx.seed) + [ic.wrap_scenario()]
             sch = ic.sched_scenarios(ctx.tier)
             half = max(2, verif.NCPU // 2)
@@ -115,8 +128,16 @@ def run(ctx):
         files = [f for _, fs, _ in parts for f in fs]
         tr, meta = ic.merge_traces(ctx, files, "ibb-trace.ndjson")
         rej, r = ic.validate(ctx, tr)
+        if jl:
+            lrej, ltrs, lmeta, lsumm, lr, ltr = jl()
+            jl = None
     finally:
         th.join()
+        if jl:
+            try:
+                jl()
+            except Exception:
+                pass
     if "error" in mc:
         raise mc["error"]
     tot = {k: sum(s[k] for _, _, s in parts) for k in ("traces", "events", "evaluations", "stuck", "hangs", "runaway")}
@@ -124,12 +145,20 @@ def run(ctx):
         tot["evaluations"], tot["traces"], tot["events"], r.wall, len(rej)))
     trs = verif.split_traces(verif.read_ndjson(tr)) if (rej or tot["hangs"]) else {}
     classes = report(ctx, rej, trs, meta)
+    if lsumm:
+        lclasses = ic.report_listen(ctx, lrej, ltrs, lmeta)
+        if lsumm["runaway"]:
+            raise verif.Undecided("ibb listener schedules that did not end (runaway): %d" % lsumm["runaway"])
+        ctx.log("listener part: %d schedules of %d Accept / Expect / Close scenarios (%d distinct traces, %d events) validated against TrIBBListen in %.1fs: %d rejected %s" % (
+            lsumm["evaluations"], len(ic.listen_scenarios(ctx.tier)), lsumm["traces"], lsumm["events"], lr.wall, len(lrej), json.dumps(lclasses, sort_keys=True)))
+        classes.update(lclasses)
     if classes:
         ctx.log("rejections by scenario family / rejected event: %s" % json.dumps(classes, sort_keys=True))
     unexplained = [meta[t]["scenario"]["name"] for t in meta if meta[t].get("note") in ("hang", "runaway") and t not in rej]
     if unexplained and not ctx.violations:
         raise verif.Undecided("scenarios that did not finish without a rejected event (not a verdict): %s" % unexplained[:5])
     nself = selftest(ctx, tr, meta) if not ctx.replay and not rej else 0
+    nlself = ic.listen_selftest(ctx, ltr, lmeta) if lsumm and not ctx.replay and not lrej else 0
     samples = [s for _, _, sm in parts for s in sm["samples"]][:2] or [{"scenario": meta[1]["scenario"], "choices": meta[1].get("choices")}]
     ctx.write_evidence("model_checking", {
         "states": mc.get("states", 0), "transitions": mc.get("transitions", 0), "liveness_states": mc.get("liveness_states", 0),
@@ -138,6 +167,11 @@ def run(ctx):
         "trace_states": r.distinct, "rejected": len(rej), "rejection_classes": classes,
         "sequential_scenarios": parts[0][2]["traces"], "schedules": parts[-1][2]["evaluations"] if len(parts) > 1 else 0,
         "distinct_nontrivial": tot["traces"], "binding_selftest_mutants_rejected": nself,
+        "listener_states": mc.get("listen_states", 0), "listener_transitions": mc.get("listen_transitions", 0),
+        "listener_deviations_detected": mc.get("listen_deviations_detected", 0),
+        "listener_schedules": lsumm["evaluations"] if lsumm else 0, "listener_traces_validated": lsumm["traces"] if lsumm else 0,
+        "listener_trace_events": lsumm["events"] if lsumm else 0, "listener_rejected": len(lrej), "listener_selftest_mutants_rejected": nlself,
+        "listener_rule": "Listener.Accept / Expect / Close against real open requests under the scheduler: take-over by a second and third Expect for one session, cancellation of an Expect before / while / after its session is opened, cancellation of the call that took over, two expectations for two sessions opened in the other order, an expectation for a session that is never opened, a listener with nobody accepting, Expect vs Accept precedence, two opens for one session, two Accept calls, Close with a pending Accept / a pending session / a pending Expect, no listener; when everything is blocked the specification judges the state and the environment escalates: callers go away, a late Accept, listener Close",
         "exhaustive": False, "samples": samples,
         "rule": "sequential scenarios = block size in {1,2,3,4,5,767,768,769,default} x payload lengths around block, base64-group and 768-byte encoder-chunk boundaries x partitions into Write calls (optional Flush, reads in between) x iq|message carrier, both directions at once with either end closing first, bad packets (unknown sid, closed sid at both ends, sequence too low / too high / far, undecodable, partly decodable, truncated, oversize) before / between / after data at either endpoint and with either carrier, refused and accepted open, full receive buffer, 65600 packets of block size 1 across the sequence wrap; schedules = depth-first enumeration at gate granularity (pre-emption bounded, capped per scenario) of reader vs serve loop vs writer, drain-then-EOF, simultaneous close, reader-side close during writes, Read against local Close, open with immediate data, refused open, empty packet; every distinct trace is validated",
     }, assumptions=["gate granularity of the scheduler (verifYield hooks read.wait, payload.signal, open.reply, close.claim; transport reads/writes; Go blocking primitives)",
